@@ -117,6 +117,7 @@ class HistSim {
     return lastOpFaults_;
   }
   Transcript obs;        // configuration-independent observables (C19: equal across builds)
+  bool limitSeen_ = false;  // a long history really used up the slot ids of this (small) build
   bool obsInvalid = false;  // a tolerated known finding made this build's transcript incomparable (reported as obs=0)
   std::string lastSkip;  // why the last op was skipped ("" = executed)
   Options opt;
